@@ -244,6 +244,28 @@ def run(chk, cid, prog, cfgname):
     for (line, what), node in sorted(d.bad.items())[:4]:
         chk.violate(cid, 'mc64ad_:job5:%s' % ('empty-marker-on-logarithm' if 'empty marker' in what else 'domains-mixed:' + pretty(node)[:30].replace(' ', '')),
                     loc(f, node), 'mc64ad_', what, cfgname=cfgname)
+    # D4: where a magnitude is exactly zero its logarithm does not exist; the slot must then receive the infinite cost (derived from rinf),
+    # otherwise a stored zero competes with the real entries for a place on the diagonal
+    for x in blk.walk():
+        if x.k != 'If' or len(x.c) < 3 or x.c[2] is None:
+            continue
+        c = strip(x.c[0])
+        if not (c.k == 'Binary' and c.a['op'] == '!=' and any(strip(y).k == 'Float' and strip(y).a.get('value') == 0.0 for y in c.c)):
+            continue
+        logs = [a for a in x.c[1].walk() if a.k == 'Assign' and a.a['op'] == '=' and any(y.k == 'Call' and callee_name(y) in ('log', 'logf') for y in a.c[1].walk())]
+        if not logs:
+            continue
+        key = d.key(logs[0].c[0])
+        els = [a for a in x.c[2].walk() if a.k == 'Assign' and d.key(a.c[0]) == key]
+        n += 1
+        inst = 'mc64ad_:job5:zero-magnitude-gets-the-infinite-cost:%s' % key
+        if els and all(any(y.k == 'Ref' and y.a.get('name') == 'rinf' for y in a.c[1].walk()) for a in els):
+            chk.ok(cid, inst, sample='`%s` / else `%s`' % (pretty(logs[0])[:40], pretty(els[0])[:30]))
+        else:
+            chk.violate(cid, inst, loc(f, els[0] if els else x), 'mc64ad_',
+                        'when `%s` fails the magnitude is exactly zero and has no logarithm; the else side must give `%s` the infinite cost (rinf / n), but it %s: '
+                        'a stored zero then looks like an entry of ordinary size and can be matched onto the diagonal'
+                        % (pretty(c)[:40], pretty(logs[0].c[0])[:30], ('does `%s`' % pretty(els[0])[:40]) if els else 'assigns nothing'), cfgname=cfgname)
     for key, nm in (('dw#0', 'u = dw[1..n]'), ('dw#1', 'v = dw[n+1..2n]')):
         n += 1
         inst = 'mc64ad_:job5:dual-is-logarithmic:%s' % key
